@@ -43,10 +43,10 @@ Definition dec_pckext (s : sexp) : pckext :=
   {| eFmspc := sB (snth 0 s); ePceId := sB (snth 1 s);
      eCpuSvnComps := map sN (sL (snth 2 s)); ePceSvn := sN (snth 3 s) |}.
 
-Definition dec_pckext_res (s : sexp) : res pckext :=
+Definition dec_pckext_res (s : sexp) : option pckext :=
   match sN (snth 0 s) with
-  | 0%N => Ok (dec_pckext (snth 1 s))
-  | _ => Err EPckExt
+  | 0%N => Some (dec_pckext (snth 1 s))
+  | _ => None
   end.
 
 Definition dec_cert (s : sexp) : cert :=
